@@ -96,7 +96,11 @@ func genSubs(r *prng.Rand, n int) []uSub {
 		for j := r.Intn(4); j > 0; j-- {
 			in := uInstr{upsc: uint16(r.Uint32())}
 			for q := r.Intn(4); q > 0; q-- {
-				in.parts = append(in.parts, uPart{typ: byte(1 + r.Intn(4)), val: r.Bytes(r.Intn(30))})
+				pn := r.Intn(30)
+				if r.Chance(1, 25) {
+					pn = []int{254, 255, 256, 300, 5000}[r.Intn(5)] // lengths around the one-octet boundary and well beyond
+				}
+				in.parts = append(in.parts, uPart{typ: byte(1 + r.Intn(4)), val: r.Bytes(pn)})
 			}
 			s.instrs = append(s.instrs, in)
 		}
